@@ -813,7 +813,8 @@ fn known_class(c: &EvalCase, outs: &[(String, String)]) -> Option<&'static str> 
         // debug-asserts <= 53 bits (and otherwise rounds a second time): builds with debug assertions
         // panic, builds without agree with each other on a value
         // per word size: the builds that do not panic agree; panics only in asserting builds
-        let mut ok = outs.iter().any(|(_, o)| o == "PANIC");
+        let any_panic = outs.iter().any(|(_, o)| o == "PANIC");
+        let mut ok = true;
         let mut group_vals: Vec<Option<&String>> = Vec::new();
         for w32 in [false, true] {
             let g: Vec<&(String, String)> = outs.iter().filter(|(n, _)| n.starts_with("w32") == w32).collect();
@@ -823,8 +824,10 @@ fn known_class(c: &EvalCase, outs: &[(String, String)]) -> Option<&'static str> 
             group_vals.push(vals.first().copied());
         }
         // the two word sizes may differ only inside the word-size dependent threshold window
+        let mut differ = false;
         if let (Some(x), Some(y)) = (group_vals[0], group_vals[1]) {
             if x != y {
+                differ = true;
                 let mut m = parse_int_hex(a[1]).unwrap_or_default();
                 let mut e: i64 = a[2].parse().unwrap_or(0);
                 while !m.is_zero() && (&m % BigInt::from(10)).is_zero() {
@@ -834,8 +837,14 @@ fn known_class(c: &EvalCase, outs: &[(String, String)]) -> Option<&'static str> 
                 ok &= e.abs() > 19 && e.abs() <= 38;
             }
         }
-        if ok {
+        if ok && any_panic {
             return Some("C19/decimal-to-f64-54-bit-quotient-debug-assert");
+        }
+        if ok && differ {
+            // no build panics, each word size agrees with itself, the two word sizes differ and the
+            // normalised decimal exponent lies in the window where only the 32-bit build takes
+            // convert_base's ln/exp path: to_f64 of a decimal float goes through the same switch
+            return Some("C19/base-conversion-threshold-depends-on-word-size");
         }
     }
     if a[0] == "b2d" {
